@@ -313,6 +313,11 @@ func c13Prepare(r *vk.RNG, fields []refmodel.Field) []refmodel.Field {
 		if fields[i].Indexed && isStaticElementary(fields[i].Type) && r.Chance(1, 2) {
 			fields[i].Column = "ci" + strconv.Itoa(i)
 		}
+		if k := fields[i].Type.Kind; fields[i].Indexed && (k == refmodel.KString || k == refmodel.KBytes) && r.Chance(1, 3) {
+			// an indexed string/bytes input appears in the log as the 32-byte hash of its value; selecting it stores
+			// that topic (what is stored is C11's subject, here only whether the log counts)
+			fields[i].Column = "ci" + strconv.Itoa(i)
+		}
 	}
 	any := false
 	for _, f := range fields {
@@ -365,6 +370,12 @@ func c13Scenario(c *vk.Case, name string, fields []refmodel.Field) {
 		err error
 		p   *panicInfo
 	)
+	if !viaConfig && r.Chance(1, 3) {
+		// the integration under test is not the first one built from this declaration (a second source, a restart of
+		// the manager, a further concurrency slot): building one must leave the declaration as it was
+		newIntegration(d, []dig.BlockData{{Name: "log_idx", Column: "log_idx"}})
+		c.Obs("scenarios_built_a_second_time_from_one_declaration", 1)
+	}
 	if viaConfig {
 		ig, err, p = newIntegrationViaConfig(d, []dig.BlockData{{Name: "log_idx", Column: "log_idx"}})
 		c.Obs("scenarios_built_via_configuration", 1)
@@ -385,6 +396,11 @@ func c13Scenario(c *vk.Case, name string, fields []refmodel.Field) {
 		return ts
 	}
 	goodData := func() []byte {
+		if emptyData && r.Bool() {
+			// every input is indexed: whatever the data holds, none of it is declared; the log is still one of the event
+			c.Obs("all_indexed_logs_with_surplus_data", 1)
+			return exactCopy(r.Bytes(r.Range(1, 70)))
+		}
 		return exactCopy(refmodel.EncodeTuple(fields, gen.Values(r, fields, gen.ABIOpts{DynLen: 3})))
 	}
 	kinds := []string{"matching", "matching", "matching", "topic-count", "topic-count", "empty-topics", "bit-flip", "other-name", "other-type", "sha3-256", "short-hash", "long-hash", "hash-last"}
